@@ -177,7 +177,7 @@ func runW2(c *hx.Ctx, prop string, g W2Cfg, hist, expect []string, seed int64, t
 			rec.Ev = "Write"
 			data = payload(tok, seed, i, g)
 			rec.N = len(data)
-			p = safely(func() { n, e = w.Write(data) })
+			p = safely(func() { n, e = writeVia(w, data, (seed+int64(i))%4 == 0) })
 			rec.Ret = n
 		}
 		rec.Err = errClass(e, p)
